@@ -78,7 +78,7 @@ def generate(rng, tier):
         for a, b in pairs:
             cases.append(mk_case(reqs, rb, [a, b], rng.choice(["lockstep", "eager"])))
     # (2) random sequences, random cuts
-    for _ in range(300 if tier == "quick" else 20000):
+    for _ in range(800 if tier == "quick" else 20000):
         k = rng.randint(1, 5)
         rs = [rng.choice(REPLIES) for _ in range(k)]
         rb = [enc(r) for r in rs]
